@@ -187,6 +187,136 @@ peak_chain = Contract(
                     nontrivial=lambda i: len(i["records"]) >= 1))
 
 
+# ---- merge_peaks -------------------------------------------------------------------------------------
+def _mp_native(i):
+    return _strax().merge_peaks(i["peaks"], i["start_merge_at"], i["end_merge_at"])
+
+
+def _mp_ens(S, a, r):
+    strax = _strax()
+    peaks, new = a.peaks.arr, r.arr
+    pe = strax.endtime(peaks)
+    ne = strax.endtime(new)
+    out = [("one merged peak per group", len(new) == a.start_merge_at.n)]
+    if len(new) != a.start_merge_at.n:
+        return out
+    for g in range(len(new)):
+        s_, e_ = int(a.start_merge_at.arr[g]), int(a.end_merge_at.arr[g])
+        grp = peaks[s_:e_]
+        out.append((f"group {g}: spans first start to last end", int(new[g]["time"]) == int(grp[0]["time"])
+                    and int(ne[g]) == int(pe[e_ - 1])))
+        out.append((f"group {g}: areas and hit counts add up", abs(float(new[g]["area"]) - float(grp["area"].sum())) < 1e-3
+                    and int(new[g]["n_hits"]) == int(grp["n_hits"].sum())
+                    and np.allclose(new[g]["area_per_channel"], grp["area_per_channel"].sum(axis=0))))
+        out.append((f"group {g}: the merged waveform integrates to the summed area",
+                    abs(float(new[g]["data"][: new[g]["length"]].sum()) - float(sum(p["data"][: p["length"]].sum() for p in grp))) < 1e-2))
+    return out
+
+
+def _mp_gen(rng, tier):
+    strax = _strax()
+    dt = strax.peak_dtype(n_channels=2, n_sum_wv_samples=40)
+    for _ in range(300 if tier == "quick" else 20000):
+        n = rng.randint(2, 7)
+        peaks = np.zeros(n, dtype=dt)
+        t = 0
+        for k in range(n):
+            t += rng.randint(0, 3)
+            ln = rng.randint(1, 4)
+            peaks[k]["time"], peaks[k]["length"], peaks[k]["dt"] = t, ln, 1
+            w = [rng.randint(0, 5) for _ in range(ln)]
+            peaks[k]["data"][:ln] = w
+            peaks[k]["area"] = sum(w)
+            peaks[k]["area_per_channel"] = [sum(w) - 1.0, 1.0]
+            peaks[k]["n_hits"] = rng.randint(1, 3)
+            t += ln
+        groups, k = [], 0
+        while k < n - 1:
+            if rng.random() < 0.5:
+                e = rng.randint(k + 2, min(n, k + 3))
+                groups.append((k, e))
+                k = e
+            else:
+                k += 1
+        if rng.random() < 0.5 and (not groups or groups[-1][1] < n - 1):
+            groups.append((n - 2, n))      # a group reaching the very end of the list
+        if groups:
+            yield dict(peaks=peaks, start_merge_at=np.array([g[0] for g in groups]), end_merge_at=np.array([g[1] for g in groups]))
+
+
+merge_peaks = Contract(
+    FM, "merge_peaks", params=dict(peaks=RowsT(), start_merge_at=ArrT("int"), end_merge_at=ArrT("int")),
+    ensures=_mp_ens, raises={},
+    harness=Harness(native=_mp_native, gen=_mp_gen,
+                    scope="random disjoint peak lists of 2..7 peaks (dt 1, <=4 samples) with merge groups of 2..3 consecutive peaks, "
+                          "including groups that end at the last peak",
+                    nontrivial=lambda i: True))
+
+
+# ---- sum_waveform on the children of a split: the children add up to the parent -------------------------
+def _sw_split_native(i):
+    strax = _strax()
+    recs = i["records"]
+    to_pe = i["to_pe"]
+    hits = strax.sort_by_time(strax.find_hits(recs, min_amplitude=1))
+    rlinks = strax.record_links(recs)
+    parent = strax.find_peaks(hits, to_pe, gap_threshold=i["gap"], left_extension=0, right_extension=0, min_area=0, min_channels=1)
+    strax.sum_waveform(parent, hits, recs, rlinks, to_pe)
+    kids = []
+    for p in parent:
+        cut = int(p["time"]) + max(1, min(int(p["length"]) - 1, i["cut"]))
+        if p["length"] < 2:
+            continue
+        for a, b in ((int(p["time"]), cut), (cut, int(p["time"] + p["length"] * p["dt"]))):
+            k = np.zeros(1, dtype=parent.dtype)
+            k["time"], k["length"], k["dt"], k["channel"] = a, b - a, 1, p["channel"]
+            kids.append(k)
+    kids = np.concatenate(kids) if kids else parent[:0].copy()
+    strax.sum_waveform(kids, hits, recs, rlinks, to_pe)
+    return dict(parent=parent, kids=kids)
+
+
+def _sw_split_ens(S, a, r):
+    parent, kids = r["parent"].arr, r["kids"].arr
+    strax = _strax()
+    out = []
+    pe = strax.endtime(parent)
+    for pi, p in enumerate(parent):
+        mine = kids[(kids["time"] >= p["time"]) & (strax.endtime(kids) <= pe[pi])]
+        if not len(mine):
+            continue
+        w_parent = p["data"][: p["length"]].astype(np.float64)
+        w_kids = np.concatenate([k["data"][: k["length"]] for k in mine]).astype(np.float64)
+        out.append((f"children of peak {pi}: their summed waveforms concatenate to the parent's",
+                    len(w_kids) == len(w_parent) and np.allclose(w_kids, w_parent, atol=1e-4)))
+        out.append((f"children of peak {pi}: areas add up to the parent's area",
+                    abs(float(mine["area"].sum()) - float(p["area"])) < 1e-3 * max(1.0, abs(float(p["area"])))))
+    return out or [("no peak long enough to split", True)]
+
+
+def _sw_split_gen(rng, tier):
+    spr = 6
+    for _ in range(200 if tier == "quick" else 15000):
+        rows, t = [], rng.randint(0, 3)
+        n_pulses = rng.randint(2, 4)
+        for p in range(n_pulses):
+            ch = rng.randint(0, 2)
+            ln = rng.randint(1, spr)
+            rows.append((t, ch, 0, ln, 1, tuple(rng.choice((1, 2, 5)) for _ in range(ln))))
+            t += rng.choice((0, 1, 2, 3))      # overlapping / adjacent pulses in different channels
+        rows.sort(key=lambda r_: (r_[0], r_[1]))
+        yield dict(records=make_records(rows, spr), to_pe=np.array([1.0, 0.5, 2.0]), gap=20, cut=rng.randint(1, 8))
+
+
+sum_waveform_children = Contract(
+    FB, "sum_waveform", variant="children of a split", params=dict(records=RowsT(), to_pe=ArrT("real"), gap="int", cut="int"),
+    ensures=_sw_split_ens, raises={},
+    harness=Harness(native=_sw_split_native, gen=_sw_split_gen,
+                    scope="random 2..4 overlapping single-fragment pulses in 3 channels -> one parent peak, cut at every position into two "
+                          "children whose waveforms are summed again",
+                    nontrivial=lambda i: True))
+
+
 # ---- replace_merged ---------------------------------------------------------------------------------
 def _rm_ens(S, a, r):
     strax = _strax()
